@@ -77,6 +77,7 @@ class Built:
     widths_in: list = field(default_factory=list)      # expected widths of shown columns
     sections: list = field(default_factory=list)       # Built per section (multi)
     df: object = None
+    earlier: object = None                             # Built of the earlier document (spec["earlier"], C08)
 
 
 def _display(v) -> str:
@@ -221,6 +222,19 @@ def build(spec: dict) -> Built:
     kw["rtf_body"] = body
     if hdrs is not None:
         kw["rtf_column_header"] = hdrs
+    if spec.get("earlier") is not None:
+        # C08/C14 dimension "component objects used by an earlier document": build (and by default
+        # encode) the earlier document first, then hand ITS body / column-header objects to this one.
+        # spec["reuse"] in {"body", "header", "both"}.
+        ea = build(spec["earlier"])
+        if spec.get("earlier_encode", True):
+            ea.doc.rtf_encode()
+        reuse = spec.get("reuse", "both")
+        if reuse in ("body", "both"):
+            kw["rtf_body"] = ea.doc.rtf_body
+        if reuse in ("header", "both"):
+            kw["rtf_column_header"] = list(ea.doc.rtf_column_header)
+        b.earlier = ea
     doc = rtf.RTFDocument(**kw)
     b.doc = doc
     return b
